@@ -10,7 +10,7 @@ BAD_STRINGS = ["", "é", "${", "${X", "$(", "$(1+", "$(nosuch(1))", "${OPT}${OPT
 
 SERDE = re.compile(r"invalid type|missing field|unknown field|unknown variant|did not find expected|expected single value|invalid value|"
                    r"data did not match|expected a|mapping values are not allowed|while parsing|duplicate entry|duplicate field|invalid length|"
-                   r"error: invalid value|cannot parse assignment|No such file|not a directory|Is a directory|export entries must be")
+                   r"error: invalid value|cannot parse assignment|No such file|not a directory|Is a directory|export entries must be|no variant of enum")
 
 
 def walk(o, path=()):
@@ -92,6 +92,8 @@ def mutate(p, rng):
         mods = [m for k_, m, path in projcheck.yaml_modules(q)]
         if mods:
             m = rng.choice(mods)
+            if not isinstance(m.get("env", {}), dict) or any(not isinstance(v, dict) for v in (m.get("env") or {}).values()):
+                m["env"] = {}          # an earlier mutation replaced the env by something else
             if kind == "no-ext":
                 m["sources"] = (m.get("sources") or []) + [rng.choice(["noext", "dir/noext", ".hidden", "a."])]
             elif kind == "no-rule":
@@ -109,13 +111,13 @@ def mutate(p, rng):
                     m["is_global_build_dep"] = True
             elif kind == "download-norule":
                 m["download"] = {"git": {"url": "u", "commit": "c"}, "patches": ["p"]}
-                projcheck.default_context(p)["rules"] = [r for r in projcheck.default_context(p).get("rules", []) if not r["name"].startswith("GIT_")]
+                projcheck.default_context(q)["rules"] = [r for r in projcheck.default_context(q).get("rules", []) if not r["name"].startswith("GIT_")]
             elif kind == "export-empty-map":
-                projcheck.default_context(p).setdefault("rules", [{"name": "CC", "in": "c", "out": "o", "cmd": "cc"}])[0]["export"] = [{}]
+                projcheck.default_context(q).setdefault("rules", [{"name": "CC", "in": "c", "out": "o", "cmd": "cc"}])[0]["export"] = [{}]
             elif kind == "var-cycle":
                 m.setdefault("env", {}).setdefault(rng.choice(["local", "export", "global"]), {})["CFLAGS"] = "${CFLAGS}"
                 if rng.random() < 0.5:
-                    projcheck.default_context(p).setdefault("env", {})["outfile"] = "${outfile}"
+                    projcheck.default_context(q).setdefault("env", {})["outfile"] = "${outfile}"
     elif kind == "defaults-ctxlist":
         files["laze-project.yml"][0]["defaults"] = {"module": {"context": ["default", "c1"]}}
     elif kind == "cli":
@@ -128,8 +130,11 @@ def gen_case(seed, i):
     p = projgen.gen_project(seed + 1500, i, PROF)
     q, kind = mutate(p, rng)
     if rng.random() < 0.25:
-        q, k2 = mutate(q, rng)
-        kind += "+" + k2
+        try:
+            q, k2 = mutate(q, rng)
+            kind += "+" + k2
+        except (KeyError, TypeError, AttributeError, IndexError):
+            pass            # the first mutation removed or retyped what the second one wanted to edit: keep the single mutation
     q["_mutation"] = kind
     return q
 
